@@ -373,5 +373,208 @@ theorem owed_delWait_fold (u : Addr) : ∀ (ids : List Nat) (h : HubSt), h.WaitW
     rw [same] at r
     omega
 
+
+/-! ### lower bounds: absent slashing and unsolicited transfers only dust is lost -/
+
+theorem mulDec_add_le (a b r : Nat) : mulDec (a + b) r ≤ mulDec a r + mulDec b r + 1 := by
+  unfold mulDec
+  have hD : 0 < D := D_pos
+  have h1 := lt_div_add_one_mul (a * r) D hD
+  have h2 := lt_div_add_one_mul (b * r) D hD
+  have : (a + b) * r / D < a * r / D + b * r / D + 2 := by
+    apply (Nat.div_lt_iff_lt_mul hD).mpr
+    have e1 : (a + b) * r = a * r + b * r := Nat.add_mul a b r
+    have e2 : (a * r / D + b * r / D + 2) * D = (a * r / D + 1) * D + (b * r / D + 1) * D := by ring
+    omega
+  omega
+
+/-- ⌊(Σ x_k)·r⌋ ≤ Σ ⌊x_k·r⌋ + one unit per entry -/
+theorem sumOn_mulDec_ge {α : Type} (ks : List α) (f : α → Nat) (r : Nat) :
+    mulDec (sumOn ks f) r ≤ sumOn ks (fun k => mulDec (f k) r) + ks.length := by
+  induction ks with
+  | nil => simp [mulDec_zero_left]
+  | cons k ks ih =>
+    simp only [sumOn_cons, List.length_cons]
+    have := mulDec_add_le (f k) (sumOn ks f) r
+    omega
+
+/-- the entries of one batch are worth at least the batch's claim sums at its rates, less one unit
+    per entry and token side -/
+theorem batch_entries_ge (h : HubSt) (i : Nat) (x' : History) :
+    mulDec (h.claimsS i) x'.sWithdraw + mulDec (h.claimsB i) x'.bWithdraw ≤
+      sumOn (h.keysOf i) (fun k => entryValue x' (h.waitB k.1 k.2) (h.waitS k.1 k.2)) + 2 * (h.keysOf i).length := by
+  unfold entryValue
+  rw [sumOn_add]
+  have a := sumOn_mulDec_ge (h.keysOf i) (fun k => h.waitS k.1 k.2) x'.sWithdraw
+  have b := sumOn_mulDec_ge (h.keysOf i) (fun k => h.waitB k.1 k.2) x'.bWithdraw
+  unfold claimsS claimsB
+  omega
+
+/-- releasing a group of batches whose recorded amounts are exactly their claim sums raises `owed`
+    by at least the group's allocation less two units per entry -/
+theorem owedWith_fold_ge (h : HubSt) (g : Nat → History) (hg : ∀ i, (g i).released = true) :
+    ∀ (ids : List Nat) (hs : Nat → Option History), ids.Nodup →
+      (∀ i ∈ ids, ∀ x, hs i = some x → x.released = false) →
+      (∀ i ∈ ids, h.claimsB i = (g i).bAmt ∧ h.claimsS i = (g i).sAmt) →
+      owedWith hs h + (ids.map (fun i => mulDec (g i).sAmt (g i).sWithdraw + mulDec (g i).bAmt (g i).bWithdraw)).sum ≤
+        owedWith (ids.foldl (fun acc i => upd acc i (some (g i))) hs) h +
+          (ids.map (fun i => 2 * (h.keysOf i).length)).sum := by
+  intro ids
+  induction ids with
+  | nil => intro hs _ _ _; simp
+  | cons i ids ih =>
+    intro hs hnd hun hcl
+    have hnd' := List.nodup_cons.mp hnd
+    simp only [List.foldl_cons, List.map_cons, List.sum_cons]
+    have step := owedWith_upd hs h i (g i) (hg i) (hun i (by simp))
+    have r := ih (upd hs i (some (g i))) hnd'.2
+      (fun j hj x hx => by
+        have hji : j ≠ i := fun e => hnd'.1 (e ▸ hj)
+        rw [upd_other _ _ _ _ hji] at hx
+        exact hun j (by simp [hj]) x hx)
+      (fun j hj => hcl j (by simp [hj]))
+    have be := batch_entries_ge h i (g i)
+    have c := hcl i (by simp)
+    rw [c.1, c.2] at be
+    omega
+
+/-- releasing batches never lowers what is owed -/
+theorem owedWith_fold_mono (h : HubSt) (g : Nat → History) (hg : ∀ i, (g i).released = true) :
+    ∀ (ids : List Nat) (hs : Nat → Option History), ids.Nodup →
+      (∀ i ∈ ids, ∀ x, hs i = some x → x.released = false) →
+      owedWith hs h ≤ owedWith (ids.foldl (fun acc i => upd acc i (some (g i))) hs) h := by
+  intro ids
+  induction ids with
+  | nil => intro hs _ _; exact Nat.le_refl _
+  | cons i ids ih =>
+    intro hs hnd hun
+    have hnd' := List.nodup_cons.mp hnd
+    simp only [List.foldl_cons]
+    have step := owedWith_upd hs h i (g i) (hg i) (hun i (by simp))
+    refine Nat.le_trans ?_ (ih (upd hs i (some (g i))) hnd'.2 (fun j hj x hx => by
+      have hji : j ≠ i := fun e => hnd'.1 (e ▸ hj)
+      rw [upd_other _ _ _ _ hji] at hx
+      exact hun j (by simp [hj]) x hx))
+    rw [step]; omega
+
+theorem release_owed_mono (h h1 : HubSt) (cutoff bal : Nat)
+    (hx : h.processWithdrawRate cutoff bal = .ok h1) : h.owed ≤ h1.owed := by
+  unfold processWithdrawRate at hx
+  simp only [] at hx
+  split at hx
+  · injection hx with hx; subst hx; exact Nat.le_refl _
+  · split at hx
+    · cases hx
+    · injection hx with hx; subst hx
+      have hun : ∀ i ∈ h.releasable cutoff (h.batchId + 1) (h.lastProcessedBatch + 1),
+          ∀ x, h.hist i = some x → x.released = false := by
+        intro i hi x hxi
+        obtain ⟨y, hy, hr, _⟩ := releasable_mem h cutoff _ _ i hi
+        rw [hy] at hxi; injection hxi with hxi; subst hxi; exact hr
+      exact owedWith_fold_mono h _ (fun _ => rfl) _ h.hist (releasable_nodup _ _ _ _) hun
+
+/-- **Absent slashing and unsolicited transfers a release loses only dust.** If exactly the amount
+    undelegated for the group arrived (`bal − prev = Σ undelegated`, within the envelope 10^18), what
+    the hub owes afterwards covers everything that arrived up to two base units per batch and two per
+    wait entry of the released batches. `ce`: unreleased batches record exactly their claim sums (C07). -/
+theorem release_owed_ge (h h1 : HubSt) (cutoff bal : Nat)
+    (hx : h.processWithdrawRate cutoff bal = .ok h1)
+    (ce : ∀ i x, h.hist i = some x → x.released = false → h.claimsB i = x.bAmt ∧ h.claimsS i = x.sAmt)
+    (hexact : bal - h.prevHubBalance =
+      sideTotal (h.pairsS (h.relIds cutoff)) + sideTotal (h.pairsB (h.relIds cutoff)))
+    (hle : bal - h.prevHubBalance ≤ D)
+    (hamt : ∀ i x, h.hist i = some x → x.bAmt ≤ D ∧ x.sAmt ≤ D) :
+    h.owed + (bal - h.prevHubBalance) ≤
+      h1.owed + 2 * (h.relIds cutoff).length + ((h.relIds cutoff).map (fun i => 2 * (h.keysOf i).length)).sum := by
+  by_cases hzero : bal - h.prevHubBalance = 0
+  · have := release_owed_mono h h1 cutoff bal hx
+    omega
+  unfold processWithdrawRate at hx
+  simp only [] at hx
+  split at hx
+  · rename_i hnil
+    injection hx with hx; subst hx
+    have : h.relIds cutoff = [] := hnil
+    rw [this] at hexact ⊢
+    simp only [pairsS, pairsB, sideTotal, List.map_nil, List.sum_nil] at hexact
+    simp only [List.length_nil, List.map_nil, List.sum_nil]
+    omega
+  · rename_i hne
+    split at hx
+    · cases hx
+    · rename_i hch
+      injection hx with hx; subst hx
+      rw [sideTotal_pairsB, sideTotal_pairsS] at hexact
+      unfold relIds at hexact ⊢
+      generalize hids : h.releasable cutoff (h.batchId + 1) (h.lastProcessedBatch + 1) = ids at *
+      generalize hsT : (ids.map (fun i => mulDec (h.histOr i).sAmt (h.histOr i).sWithdraw)).sum = sT at *
+      generalize hbT : (ids.map (fun i => mulDec (h.histOr i).bAmt (h.histOr i).bWithdraw)).sum = bT at *
+      generalize hact : (signedSub bal h.prevHubBalance).1 = act at *
+      have hact' : bal - h.prevHubBalance = act := by
+        rw [← hact]
+        unfold signedSub at hch ⊢
+        split
+        · rename_i hlt; rw [if_pos hlt] at hch; exact absurd rfl hch
+        · rfl
+      rw [hact'] at hexact hle ⊢
+      subst hexact
+      by_cases hpos : 0 < sT + bT
+      · have hsplit := split_exact sT bT hpos hle
+        simp only [hpos, gt_iff_lt, if_true] at *
+        rw [hsplit]
+        have hsS : sT + bT - bT = sT := by omega
+        rw [hsS]
+        let g : Nat → History := fun i =>
+          { h.histOr i with
+            sWithdraw := newWithdrawRate (h.histOr i).sAmt (h.histOr i).sWithdraw sT (signedSub sT sT),
+            bWithdraw := newWithdrawRate (h.histOr i).bAmt (h.histOr i).bWithdraw bT (signedSub bT bT),
+            released := true }
+        have hnd : ids.Nodup := by rw [← hids]; exact releasable_nodup _ _ _ _
+        have hun : ∀ i ∈ ids, ∀ x, h.hist i = some x → x.released = false := by
+          intro i hi x hxi
+          rw [← hids] at hi
+          obtain ⟨y, hy, hr, _⟩ := releasable_mem h cutoff _ _ i hi
+          rw [hy] at hxi; injection hxi with hxi; subst hxi; exact hr
+        have hcl : ∀ i ∈ ids, h.claimsB i = (g i).bAmt ∧ h.claimsS i = (g i).sAmt := by
+          intro i hi
+          rw [← hids] at hi
+          obtain ⟨y, hy, hr, _⟩ := releasable_mem h cutoff _ _ i hi
+          have e : h.histOr i = y := by simp [histOr, hy]
+          show h.claimsB i = (h.histOr i).bAmt ∧ h.claimsS i = (h.histOr i).sAmt
+          rw [e]; exact ce i y hy hr
+        have hD : ∀ i ∈ ids, (h.histOr i).bAmt ≤ D ∧ (h.histOr i).sAmt ≤ D := by
+          intro i hi
+          rw [← hids] at hi
+          obtain ⟨y, hy, _, _⟩ := releasable_mem h cutoff _ _ i hi
+          have e : h.histOr i = y := by simp [histOr, hy]
+          rw [e]; exact hamt i y hy
+        have fold := owedWith_fold_ge h g (fun _ => rfl) ids h.hist hnd hun hcl
+        have gB := side_alloc_ge (h.pairsB ids) (by
+          intro x hx'
+          simp only [pairsB, List.mem_map] at hx'
+          obtain ⟨i, hi, rfl⟩ := hx'
+          exact (hD i hi).1)
+        have gS := side_alloc_ge (h.pairsS ids) (by
+          intro x hx'
+          simp only [pairsS, List.mem_map] at hx'
+          obtain ⟨i, hi, rfl⟩ := hx'
+          exact (hD i hi).2)
+        rw [sideTotal_pairsB, hbT, sideAlloc_pairsB] at gB
+        rw [sideTotal_pairsS, hsT, sideAlloc_pairsS] at gS
+        have lenB : (h.pairsB ids).length = ids.length := by simp [pairsB]
+        have lenS : (h.pairsS ids).length = ids.length := by simp [pairsS]
+        rw [lenB] at gB
+        rw [lenS] at gS
+        have split := sum_map_add ids
+          (fun i => mulDec (g i).sAmt (g i).sWithdraw) (fun i => mulDec (g i).bAmt (g i).bWithdraw)
+        rw [split] at fold
+        have e0 : owed h = owedWith h.hist h := rfl
+        rw [e0]
+        show owedWith h.hist h + (sT + bT) ≤ owedWith (ids.foldl (fun acc i => upd acc i (some (g i))) h.hist) h + _ + _
+        have gS' : sT ≤ (ids.map (fun i => mulDec (g i).sAmt (g i).sWithdraw)).sum + ids.length := gS
+        have gB' : bT ≤ (ids.map (fun i => mulDec (g i).bAmt (g i).bWithdraw)).sum + ids.length := gB
+        omega
+      · omega
+
 end HubSt
 end Krp
